@@ -656,6 +656,8 @@ def mutate(rec):
             return rec
         return None
     d = out['phi']['d']
+    if len(d) > 3000:
+        return None         # cost: the demonstration uses the records with small arrays (every site has them)
     cand = [k for k in range(len(d)) if d[k] not in ('nan', 'inf', '-inf') and Fraction(d[k]) != 0]
     if not cand:
         return None
@@ -689,12 +691,17 @@ def run(ctx):
         nontrivial_of=nontrivial, mutator=mutate, what_of=what_of, parallel=PARALLEL,
         rule='pulse / admix_new records: distinct (function, proportion class [zero, vertex, face, subface, grid-aligned, interior, '
              'round-off stress, above 1; fixed set: 1 / 0.375 / 1.25 from each single source, ints, (0.9, 0.1), 2- and 3-point grids, '
-             'Fortran / strided layouts, empty and corner-only densities], array shape, grid mode [one grid for all axes | per-axis grids of equal | different lengths]); '
-             'other records: distinct (function, shape, axis / kept set / permutation)',
+             'Fortran / strided layouts, empty and corner-only densities; long_axis_k: axis k has 33 .. 70 points (above block sizes 32 and 64), the other axes '
+             '3 or 4, every entry of the density occupied - every axis of every constructor (new axis included) and pulse function, both tiers], array shape, '
+             'grid mode [one grid for all axes | per-axis grids of equal | different lengths]); '
+             'other records: distinct (function, shape, axis / kept set / permutation), incl. 33- and 70-point 1-D -> 2-D splits, 33-point 2-D -> 3-D splits and '
+             'removal / filtering / reordering with the long axis removed and kept',
         assumptions=['BigInteger rational arithmetic of the Rat override (self-tested against the TLA+ definitions)',
                      'tau_lin = 1e-10 relative to the largest exact value on the same fibre (new / destination axis); per-entry relative 1e-10 '
                      'for trapezoid sums of non-negative data; reorder_pops compared exactly',
                      'a proportion vector must be accepted iff all entries >= 0 and its exact sum <= 1 + 2^-52 (doubles nearest to a point of the '
                      'simplex, <= 4 components), must be refused iff its sum > 1 + 1e-9; in between either outcome is allowed',
                      'trapezoid integrals define "marginal density"; the 1-D -> 2-D split drops the two end points of the grid by design',
-                     'grids are strictly increasing from 0 to 1 with spacing >= 0.02 (or dadi\'s default_grid)'])
+                     'grids are strictly increasing from 0 to 1 with spacing >= min(0.02, 1/(2(n-1))) (or dadi\'s default_grid, or multiples of 1/16 | 1/128)',
+                     'pulses in 3-5 dimensions whose DESTINATION axis is the long one use grids on multiples of 1/128 (1/16) and proportions on multiples of 1/64 '
+                     '(exact judging of a sum of 33+ terms per entry is otherwise too slow); records are reordered so that the parallel judges share the work'])
